@@ -179,4 +179,7 @@ def detokW : List PT → List Bytes → Bytes
 
 def renderW (bs : List Bytes) (e : Expr) : Bytes := detokW (rtoks e) bs
 
+/-- the abbreviated text (`atoks`) with the blank strings `bs` after its tokens -/
+def renderAW (bs : List Bytes) (e : Expr) : Bytes := detokW (atoks e) bs
+
 end LyModel.XPath.Render
